@@ -292,7 +292,7 @@ static void p1_run(uint64_t idx, vh_rng_t * rng) {
 
 int main(int argc, char ** argv) {
     static const vh_phase_t phases[] = { { "pairs", p0_count, p0_run }, { "units within one message", p1_count, p1_run } };
-    vh_decoy_enable(7); vh_require("decoy.messages_run_on_a_second_context"); vh_require("pairs.direct_line_parse_same_length"); vh_require("unit.X_raises_errors"); vh_require("unit.block_data_without_header_after_unfinished_block"); vh_require("unit.both_units_raise_errors");
+    vh_scribble_chunk_in_callbacks(1); vh_decoy_enable(7); vh_require("decoy.messages_run_on_a_second_context"); vh_require("pairs.direct_line_parse_same_length"); vh_require("unit.X_raises_errors"); vh_require("unit.block_data_without_header_after_unfinished_block"); vh_require("unit.both_units_raise_errors");
     vh_require("A.sequence_of_messages"); vh_require("A.raises_errors"); vh_require("A.leaves_block_unfinished_or_overlong"); vh_require("A.ends_with_compound_path");
     vh_require("A.overrun_with_pending_bytes"); vh_require("pairs.line_parsed_directly_between_two_pieces_of_B"); vh_require("pairs.context_initialised_again_between_A_and_B"); vh_require("pairs.A_ran_the_later_of_two_overlapping_entries_B_is_accepted_by_both"); vh_require("A.overrun_with_pending_complete_units"); vh_require("B.uses_relative_header"); vh_require("B.responds"); vh_require("A.responds"); vh_require("B.block_data_without_header_after_unfinished_block");
     return vh_main(argc, argv, "C09", phases, 2);
